@@ -107,6 +107,23 @@ func FirstShard() bool {
 	return s == "" || strings.HasSuffix(s, ".0") || !strings.Contains(s, ".")
 }
 
+// Call runs f in its own goroutine and reports whether it returned within d.
+// A handler that never returns (a lock taken twice, a lock left behind by an
+// earlier panic) must end the case, not hang the check; the goroutine is leaked.
+func Call(d time.Duration, f func()) (returned bool, panicked interface{}) {
+	done := make(chan interface{}, 1)
+	go func() {
+		defer func() { done <- recover() }()
+		f()
+	}()
+	select {
+	case p := <-done:
+		return true, p
+	case <-time.After(d):
+		return false, nil
+	}
+}
+
 // WaitTimeout waits for wg, but gives up when abort is closed (a goroutine
 // reported a panic: the others may be parked on a lock the panicking one still
 // holds) or after d. It reports whether every goroutine finished.
